@@ -10,6 +10,7 @@ from __future__ import annotations
 import decimal
 import itertools
 import random
+import re
 from decimal import Decimal
 from typing import Any
 
@@ -315,7 +316,13 @@ class Kit:
                                       ("p2ms", "multi(1,{a}/0/*,{b}/0/*)", [self.s1], 1), ("p2wsh-p2ms-3", "wsh(multi(3,{a}/0/*,{b}/0/*,{a}/1/*))", [self.s1, self.s2], 3),
                                       # eight keys: a redeem script of 275 bytes, past the one-byte OP_PUSHDATA1 length
                                       ("p2sh-p2ms-8", "sh(multi(1," + ",".join("{a}/%d/*" % j for j in range(8)) + "))", [self.s1], 1),
-                                      ("p2wsh-p2ms-8", "wsh(multi(2," + ",".join("{a}/%d/*" % j for j in range(7)) + ",{b}/0/*))", [self.s1, self.s2], 2)):
+                                      ("p2wsh-p2ms-8", "wsh(multi(2," + ",".join("{a}/%d/*" % j for j in range(7)) + ",{b}/0/*))", [self.s1, self.s2], 2),
+                                      # around the 520 bytes a stack element may have, which a witness script is not held to: 15 keys are 513 bytes, 16 are 547 and the most the library takes;
+                                      # and the 15 compressed keys that still fit a p2sh redeem script
+                                      ("p2wsh-p2ms-15", "wsh(multi(1," + ",".join("{a}/%d/*" % j for j in range(15)) + "))", [self.s1], 1),
+                                      ("p2wsh-p2ms-16", "wsh(multi(1," + ",".join("{a}/%d/*" % j for j in range(16)) + "))", [self.s1], 1),
+                                      ("p2sh-p2wsh-p2ms-16", "sh(wsh(sortedmulti(2," + ",".join("{a}/%d/*" % j for j in range(15)) + ",{b}/0/*)))", [self.s1, self.s2], 2),
+                                      ("p2sh-p2ms-15", "sh(multi(2," + ",".join("{a}/%d/*" % j for j in range(14)) + ",{b}/0/*))", [self.s1, self.s2], 2)):
             try:
                 self.kinds[typ] = {"desc": descriptors.parse(tmpl.format(a=a, b=b)), "signers": signers, "m": m}
             except Exception as e:  # noqa: BLE001
@@ -338,7 +345,7 @@ class Kit:
         pin.previous_tx_id, pin.output_index = prev_tx.id, 0
         if sighash:
             pin.sig_hash_type = sighash
-        base = typ.replace("-3", "").replace("-8", "")
+        base = re.sub(r"-\d+$", "", typ)
         rec: dict[str, Any] = {"type": base}
         if base == "p2pkh":
             rec["keylen"] = 33
